@@ -697,10 +697,37 @@ class _Shadow:
             s = z3.Solver()
             s.set("timeout", 10000)
             s.add(*CTX.pc)
-            if s.check() != z3.sat:
-                raise UnmodelledDependency("shadow instance: no model of the path condition available")
-            self.model = s.model()
+            if s.check() == z3.sat:
+                self.model = s.model()
+            else:
+                self.model = self._candidate_model()
         return self.model
+
+    def _candidate_model(self):
+        """fallback when z3 finds no model of a non-linear path condition in time: admissible float inputs drawn
+        from the contract's generators; accepted if every precondition / branch condition of the path evaluates true"""
+        from .sym import float_eval
+
+        sink = CTX.sink
+        if sink is None or not sink.inputs:
+            raise UnmodelledDependency("shadow instance: no model of the path condition available")
+        for t in range(40):
+            rng = _np.random.default_rng(1000 + t)
+            env = {}
+            for name, shape in sink.inputs.items():
+                g = sink.gens.get(name)
+                v = _np.asarray(g(rng, shape, sink.cfg) if g else rng.uniform(0.1, 2.0, size=shape), dtype=float).reshape(shape)
+                for idx in (_np.ndindex(*shape) if shape else [()]):
+                    env[name + ("[" + ",".join(map(str, idx)) + "]" if idx else "")] = float(v[idx])
+            ok = True
+            for c, tag in zip(CTX.pc, CTX.pc_tags):
+                if tag in ("assume", "branch") and not _mentions_fresh(c):
+                    if not float_eval(c, env):
+                        ok = False
+                        break
+            if ok:
+                return ("float", env)
+        raise UnmodelledDependency("shadow instance: no admissible float instance of the path condition found")
 
     def const(self, val):
         out = _np.empty(val.shape, dtype=float)
@@ -709,7 +736,13 @@ class _Shadow:
             if e.c is not None:
                 out[i] = float(e.c)
             else:
-                v = self._model().eval(e.z, model_completion=True)
+                m = self._model()
+                if isinstance(m, tuple):
+                    from .sym import float_eval
+
+                    out[i] = float(float_eval(e.z, m[1]))
+                    continue
+                v = m.eval(e.z, model_completion=True)
                 if z3.is_algebraic_value(v):
                     v = v.approx(20)
                 out[i] = float(v.numerator_as_long()) / float(v.denominator_as_long())
@@ -724,6 +757,20 @@ class _Shadow:
         if p not in self.params:
             self.params[p] = self.cp.Parameter(p.shape, pos=True) if p.pos else self.cp.Parameter(p.shape)
         return self.params[p]
+
+
+def _mentions_fresh(t):
+    """does the term mention a solver-introduced symbol (name contains '!')"""
+    seen, stack = set(), [t]
+    while stack:
+        e = stack.pop()
+        if e.get_id() in seen:
+            continue
+        seen.add(e.get_id())
+        if z3.is_const(e) and e.decl().kind() == z3.Z3_OP_UNINTERPRETED and "!" in e.decl().name():
+            return True
+        stack.extend(e.children())
+    return False
 
 
 class _CP:
